@@ -11,7 +11,8 @@
    real formulas only and are tied to the code per sample (latcert), the dispatch checkers tie the reported latitudes to their rows through the
    library's own row formula (check_rows) and to each other (check_centre_lat). *)
 From Coq Require Import ZArith Reals String List Floats Lia.
-From SID Require Import Base Str Ids Wire F64 PointF VertexF VxBridge West VertexCheck VertexProofs MercatorR DC02.
+From SIDGen Require Import GeneratedF.
+From SID Require Import Base Str Ids Wire F64 PointF VertexF VxBridge West VertexCheck VertexProofs MercatorR DC02 GenC02.
 Import ListNotations.
 Open Scope Z_scope.
 
@@ -208,6 +209,84 @@ Theorem C02_sequence_steps_judged_standalone : forall oracle steps outs vs, c02_
 Proof. exact c02_steps_stepwise. Qed.
 Print Assumptions C02_sequence_steps_judged_standalone.
 
+(* ================= the main results over the kernels REGENERATED from the Go source (SIDGen.GeneratedF, rewritten by the translator on every run) =================
+   g_west / g_east / g_north / g_south / g_top = the locals westLon, eastLon, northLat, southLat, vTopAlt of getVertexOnVoxelOffset; g_alt = getAltitudeOnVerticalIndexAndZoom;
+   g_clon / g_calt = centerLon / centerAlt of getCenterPointOnVoxelOffset; g_lonIndex / g_latIndex / g_vIndex = the point -> index kernels; M : libm = Go's math package
+   as arbitrary functions. of_Z x is float64(lonIndex) of a column inside the grid (the wrap of the column is not regenerated; for a valid ID it is the identity). *)
+Theorem C02_gen_corners_in_documented_order : forall (M : libm) i, valid i ->
+  let alt := fst (g_alt (ef i) (ev i)) in let res := snd (g_alt (ef i) (ev i)) in
+  vertices (m_sinh M) (m_atan M) (eh i) (ex i) (ey i) alt res =
+  box_corners (g_west (ex i) (ey i) (eh i) alt res (of_Z (ex i))) (g_east (ex i) (ey i) (eh i) alt res (of_Z (ex i)))
+              (g_north M (ex i) (ey i) (eh i) alt res) (g_south M (ex i) (ey i) (eh i) alt res)
+              alt (g_top (ex i) (ey i) (eh i) alt res).
+Proof. exact gen_corners. Qed.
+Print Assumptions C02_gen_corners_in_documented_order.
+Theorem C02_gen_west_edge_exact : forall x y h alt res, 0 <= h <= 35 -> 0 <= x <= 2 ^ h -> isR (g_west x y h alt res (of_Z x)) (lonR h x).
+Proof. exact gen_west_exact. Qed.
+Print Assumptions C02_gen_west_edge_exact.
+Theorem C02_gen_east_edge_exact : forall x y h alt res, 0 <= h <= 35 -> 0 <= x < 2 ^ h -> isR (g_east x y h alt res (of_Z x)) (lonR h (x + 1)).
+Proof. exact gen_east_exact. Qed.
+Print Assumptions C02_gen_east_edge_exact.
+Theorem C02_gen_bottom_top_exact : forall x y h f v, 0 <= v <= 35 -> - 2 ^ v <= f < 2 ^ v ->
+  isR (fst (g_alt f v)) (altR v f) /\ isR (g_top x y h (fst (g_alt f v)) (snd (g_alt f v))) (altR v (f + 1)).
+Proof. exact gen_altitude_exact. Qed.
+Print Assumptions C02_gen_bottom_top_exact.
+(* shared faces on the regenerated kernels *)
+Theorem C02_gen_east_is_next_west : forall x y y' h alt res alt' res', 0 <= h <= 35 -> 0 <= x <= 2 ^ h ->
+  g_east x y h alt res (of_Z x) = g_west (x + 1) y' h alt' res' (of_Z (x + 1)).
+Proof. exact gen_east_is_next_west. Qed.
+Print Assumptions C02_gen_east_is_next_west.
+Theorem C02_gen_top_is_next_bottom : forall x y h f v, 0 <= v <= 35 -> - 2 ^ v <= f < 2 ^ v ->
+  g_top x y h (fst (g_alt f v)) (snd (g_alt f v)) = fst (g_alt (f + 1) v).
+Proof. exact gen_top_is_next_bottom. Qed.
+Print Assumptions C02_gen_top_is_next_bottom.
+Theorem C02_gen_south_is_next_north : forall (M : libm) x x' y h alt res alt' res', 0 <= h <= 35 -> 0 <= y -> y + 1 < 2 ^ h ->
+  g_south M x y h alt res = g_north M x' (y + 1) h alt' res'.
+Proof. exact gen_south_is_next_north. Qed.
+Print Assumptions C02_gen_south_is_next_north.
+Theorem C02_gen_antimeridian : forall y h alt res, 0 <= h <= 35 ->
+  g_east (2 ^ h - 1) y h alt res (of_Z (2 ^ h - 1)) = 180%float /\ g_west 0 y h alt res (of_Z 0) = (-180)%float.
+Proof. exact gen_antimeridian. Qed.
+Print Assumptions C02_gen_antimeridian.
+(* NewPoint's checked setters, regenerated: a plane longitude and an accepted latitude are stored without error *)
+Theorem C02_gen_setters_store_corner : forall h k lat, 0 <= h <= 35 -> 0 <= k <= 2 ^ h -> lat_acc lat = true ->
+  GeneratedF.Point_SetLon 0 0 0 (lonplane h k) = (lonplane h k, 0%float, 0%float, false) /\
+  GeneratedF.Point_SetLat (lonplane h k) 0 0 lat = (lonplane h k, setlat_trunc lat, 0%float, false).
+Proof. exact gen_setters_store_corner. Qed.
+Print Assumptions C02_gen_setters_store_corner.
+(* the centre: regenerated midpoints of the regenerated edges, exact; and back through the regenerated point -> index kernels *)
+Theorem C02_gen_centre_exact : forall x y h f v, 0 <= h <= 35 -> 0 <= v <= 35 -> 0 <= x < 2 ^ h -> - 2 ^ v <= f < 2 ^ v ->
+  isR (g_centre_lon x y h f v) (clonR h x) /\ isR (g_centre_alt x y h f v) (caltR v f).
+Proof. exact gen_centre_exact. Qed.
+Print Assumptions C02_gen_centre_exact.
+Theorem C02_gen_roundtrip_longitude : forall x y h f v, 0 <= h <= 35 -> 0 <= x < 2 ^ h -> forall lat,
+  Ztrunc_f (g_lonIndex (g_centre_lon x y h f v) lat h) = Some x.
+Proof. exact gen_roundtrip_longitude. Qed.
+Print Assumptions C02_gen_roundtrip_longitude.
+Theorem C02_gen_roundtrip_altitude : forall x y h f v, 0 <= v <= 35 -> - 2 ^ v <= f < 2 ^ v ->
+  Ztrunc_f (g_vIndex (g_centre_alt x y h f v) v) = Some f.
+Proof. exact gen_roundtrip_altitude. Qed.
+Print Assumptions C02_gen_roundtrip_altitude.
+(* the model's centre point: its longitude IS the regenerated midpoint for every libm; its altitude under acceptance of the three latitudes *)
+Theorem C02_gen_centre_point_longitude : forall (M : libm) i lat, valid i ->
+  plon (centre_of (m_sinh M) (m_atan M) i) = g_centre_lon (ex i) (ey i) (eh i) (ef i) (ev i) /\
+  Ztrunc_f (g_lonIndex (plon (centre_of (m_sinh M) (m_atan M) i)) lat (eh i)) = Some (ex i).
+Proof. exact gen_centre_point_longitude. Qed.
+Print Assumptions C02_gen_centre_point_longitude.
+Theorem C02_gen_centre_point_altitude : forall (M : libm) i, valid i ->
+  lat_acc (rowlat (m_sinh M) (m_atan M) (eh i) (ey i)) = true -> lat_acc (rowlat (m_sinh M) (m_atan M) (eh i) (ey i + 1)) = true ->
+  lat_acc (centre_lat_raw (m_sinh M) (m_atan M) i) = true ->
+  palt (centre_of (m_sinh M) (m_atan M) i) = g_centre_alt (ex i) (ey i) (eh i) (ef i) (ev i) /\
+  Ztrunc_f (g_vIndex (palt (centre_of (m_sinh M) (m_atan M) i)) (ev i)) = Some (ef i).
+Proof. exact gen_centre_point_altitude. Qed.
+Print Assumptions C02_gen_centre_point_altitude.
+(* PARTIAL (the row is the libm's): the ID of the centre through the regenerated latIndex kernel *)
+Theorem C02_gen_centre_roundtrip_partial : forall (M : libm) i lon Y, valid i -> lat_hyp (m_sinh M) (m_atan M) i -> centre_lat_hyp (m_sinh M) (m_atan M) i ->
+  Ztrunc_f (g_latIndex M lon (plat (centre_of (m_sinh M) (m_atan M) i)) (eh i)) = Some Y ->
+  points_api (m_tan M) (m_cos M) (m_log M) false [centre_of (m_sinh M) (m_atan M) i] (eh i) (ev i) = Ok [print_eid (mk (eh i) (ex i) Y (ev i) (ef i))].
+Proof. exact gen_centre_roundtrip_partial. Qed.
+Print Assumptions C02_gen_centre_roundtrip_partial.
+
 (* non-vacuity: a concrete valid ID at the last column / first row / negative f and a concrete (toy, decreasing) oracle satisfy every hypothesis,
    and the model's outputs pass the checkers *)
 Definition toy_sinh (x : float) : float := x.
@@ -243,3 +322,9 @@ Example C02_nonvacuous_history :
   | _ => False
   end.
 Proof. vm_compute. split; reflexivity. Qed.
+(* the regenerated kernels evaluated: zoom 35, last column, lowest level — the edges, and the centre back to (x, f) *)
+Example C02_gen_nonvacuous :
+  let x := 2 ^ 35 - 1 in let f := - 2 ^ 35 in
+  Prim2SF (g_east x 0 35 0 0 (of_Z x)) = Prim2SF 180%float /\
+  Ztrunc_f (g_lonIndex (g_centre_lon x 0 35 f 35) 0 35) = Some x /\ Ztrunc_f (g_vIndex (g_centre_alt x 0 35 f 35) 35) = Some f.
+Proof. vm_compute. repeat split; reflexivity. Qed.
